@@ -119,6 +119,8 @@ pub enum AsmErrorKind {
     BranchOutOfRange(String, i32),
     Syntax(String),
     ValueRange(String, i64),
+    /// the program does not fit the emulator's code area (harness limit, not a defect)
+    ImageTooLarge,
 }
 
 #[derive(Debug, Clone, PartialEq)]
@@ -656,6 +658,9 @@ pub fn assemble(units: &[Source], org: u16, globals: &HashMap<String, i64>) -> R
             }
         }
         modes.push(ms);
+        if pc > 0xFFF0 {
+            return Err(AsmError { unit: u.name.to_string(), line_no: 0, text: String::new(), kind: AsmErrorKind::ImageTooLarge });
+        }
         ends.push(pc as u16);
     }
     // ---- pass 2: encode
